@@ -143,6 +143,12 @@ theorem tip_sound (l : List Rec) :
     (pickTip l = none → ∀ r ∈ l, validScripts r = false) :=
   pickTip_sound l
 
+/-- the tip does not depend on the order of the table — which is the order the 32-byte hashes happen to sort in, i.e. noise:
+    for records with pairwise distinct hashes (`table_distinct`), every rearrangement of the table yields the same tip -/
+theorem tip_independent_of_table_order (l₁ l₂ : List Rec) (hp : l₁.Perm l₂) (hd : (l₁.map (·.hash)).Nodup) :
+    pickTip l₁ = pickTip l₂ :=
+  pickTip_perm l₁ l₂ hp hd
+
 /-- non-vacuity: two fully validated records at height 7; the one with the greater hash is picked in either table order -/
 example : pickTip [⟨[2], [0], 7, 29, 0, 8⟩, ⟨[1], [0], 7, 29, 0, 90⟩, ⟨[9], [0], 8, 24, 0, 200⟩] = some ⟨[2], [0], 7, 29, 0, 8⟩ ∧
     pickTip [⟨[9], [0], 8, 24, 0, 200⟩, ⟨[1], [0], 7, 29, 0, 90⟩, ⟨[2], [0], 7, 29, 0, 8⟩] = some ⟨[2], [0], 7, 29, 0, 8⟩ := by
